@@ -626,6 +626,14 @@ Definition pg_reserve_done (h : pg_val) (c : pg_cst) : pg_cst :=
   | _ => c
   end.
 
+(* an object that replaceObject(og, the stream that is og) turned into a reference to itself: what the copier does
+   with it is not modelled *)
+Definition pg_is_selfref (s : pg_store) (h : pg_val) : bool :=
+  match h with
+  | PvRef og => match pg_lookup s og with Some (PcObj (PvRef _)) => true | _ => false end
+  | _ => false
+  end.
+
 (* reserve_objects.  fuel bounds the depth of the walk. *)
 Fixpoint pg_reserve (fuel : nat) (h : pg_val) (top : bool) (c : pg_cst) : pg_cst :=
   match fuel with
@@ -639,6 +647,7 @@ Fixpoint pg_reserve (fuel : nat) (h : pg_val) (top : bool) (c : pg_cst) : pg_cst
       | Some _ => c
       | None =>
         if is_pages then c
+        else if pg_is_selfref (pd_store (pgc_src c)) h then pgc_fail c PeUnm
         else
           let '(c, go) := pg_reserve_head h top c in
           match pgc_err c with
@@ -898,7 +907,9 @@ Inductive pg_op :=
 | PoPushInh (d : bool)
 | PoGetPages (d : bool)
 | PoFind (d : bool) (i : N)
-| PoMakeIndirect (d : bool) (v : pg_val).
+| PoMakeIndirect (d : bool) (v : pg_val)
+| PoReplaceInd (d : bool) (i : N) (h : pg_href)     (* replaceObject(i, an INDIRECT handle) *)
+| PoReplaceReserved (d : bool) (i : N).             (* replaceObject(i, newReserved()); the reservation is then made null *)
 
 Inductive pg_res :=
 | PrOk
@@ -992,6 +1003,28 @@ Definition pg_step (w : pg_world) (o : pg_op) : pg_world * pg_res :=
   | PoMakeIndirect d v =>
       let p := pg_get w d in
       let '(s, j) := pg_alloc (pd_store p) (PcObj v) in (pg_put w d (pd_with_store p s), PrId j)
+  | PoReplaceInd d i h =>
+      (* QPDF::replaceObject: "if (!oh || (oh.isIndirect() && !(oh.isStream() && oh.getObjGen() == og))) throw logic_error".
+         getObject of an id that does not exist is a direct null: an ordinary replacement by null. *)
+      let p := pg_get w d in
+      match pg_norm w h with
+      | PhDirect v => (pg_put w d (pd_with_store p (pg_supd (pd_store p) i (PcObj v))), PrOk)
+      | PhObj b j =>
+          if pg_is_stream (pd_store (pg_get w b)) (PvRef j) && (j =? i) then
+            if Bool.eqb b d then
+              (* the stream that already IS object i: updateCache moves the object into itself
+                 (QPDFObject::move_to: "o->value = std::move(value); ... value = QPDF_Reference(o)"), the cached object
+                 ends up as a reference to itself and the stream is gone *)
+              (pg_put w d (pd_with_store p (pg_supd (pd_store p) i (PcObj (PvRef i)))), PrOk)
+            else
+              (* a stream of the OTHER document that happens to have the same number passes the test: the two
+                 documents then share one object (not modelled) *)
+              (w, PrErr PeUnm)
+          else (w, PrErr PeLogic)
+      end
+  | PoReplaceReserved d i =>
+      let p := pg_get w d in
+      let '(s, _) := pg_alloc (pd_store p) (PcObj PvNull) in (pg_put w d (pd_with_store p s), PrErr PeLogic)
   end.
 
 (* marker (/Mk) of an object, used by observations *)
